@@ -8,6 +8,7 @@ import (
 	"io"
 	"reflect"
 	"strings"
+	"unicode/utf8"
 
 	jsonv2 "github.com/go-json-experiment/json"
 	"github.com/go-json-experiment/json/jsontext"
@@ -447,11 +448,18 @@ func checkUTF8(t *target, bad string, inName bool) (doc string, msg string) {
 	}
 	// each ill-formed byte -> one U+FFFD
 	want := refjson.Sanitize(bad)
-	b, _ := jsonv2.Marshal(root.Elem().Interface(), jsonv2.Deterministic(true), jsontext.AllowInvalidUTF8(true))
-	if t.typ.Kind() == reflect.Map || t.typ.Kind() == reflect.Interface {
-		if !strings.Contains(string(b), want) {
-			return doc, fmt.Sprintf("AllowInvalidUTF8(true): decoded value %s does not contain the text with one U+FFFD per ill-formed byte %q", b, want)
+	// inspect the decoded Go strings themselves (re-marshaling would substitute U+FFFD once more and hide raw bytes)
+	var strs []string
+	collectStrings(root.Elem(), &strs)
+	found := false
+	for _, s := range strs {
+		if !utf8.ValidString(s) {
+			return doc, fmt.Sprintf("AllowInvalidUTF8(true): the decoded value holds the Go string %q, which still contains ill-formed UTF-8 (want one U+FFFD per ill-formed byte)", s)
 		}
+		found = found || strings.Contains(s, want)
+	}
+	if (t.typ.Kind() == reflect.Map || t.typ.Kind() == reflect.Interface) && !found {
+		return doc, fmt.Sprintf("AllowInvalidUTF8(true): decoded strings %q do not contain the text with one U+FFFD per ill-formed byte %q", strs, want)
 	}
 	return doc, ""
 }
@@ -687,6 +695,8 @@ func Run(r *evid.Run) {
 	r.Evaluations.Add(n)
 	r.Nontrivial.Add(n)
 	marshalGrid(r)
+	firstValFamily(r)
+	wideStructFamily(r)
 	r.Sample(Case{Part: "marshal", Doc: "map keys colliding after U+FFFD substitution"})
 	r.Bound("ill-formed UTF-8: %d byte patterns x 14 targets x name/value position, and x 7 Go value shapes on the marshal side; %d colliding-name marshal constructions", len(bads), len(marshalCases()))
 }
